@@ -1,4 +1,5 @@
 import Verif.Model.Wordlist
+import Verif.Model.WordlistViews
 import Verif.Model.Names
 import Verif.Driver.Util
 namespace Verif.Driver
@@ -27,6 +28,14 @@ def handleWL (fs : List (List String)) : Option String :=
     let lc := ";".intercalate (cols.map fun l => s!"{l}=" ++ nl (listOfCol rows cols l))
     let lr := ";".intercalate ((concepts rows).map fun c => s!"{c}=" ++ nl (listOfRow rows cols c))
     some s!"W {arr} # {ety} # {paps} # {dst} # {lc} # {lr}"
+  | [["wldicts"], rs, cs] =>
+    -- get_dict(col=l) for every language, get_dict(row=c) for every concept: ordered key=ids lists
+    let rows := rs.map rowIn
+    let cols := nats cs
+    let showD := fun (d : List (Nat × List Nat)) => "/".intercalate (d.map fun p => s!"{p.1}:" ++ nl p.2)
+    let dc := ";".intercalate (cols.map fun l => s!"{l}=" ++ showD (dictOfCol rows cols l))
+    let dr := ";".intercalate ((concepts rows).map fun c => s!"{c}=" ++ showD (dictOfRow rows c))
+    some s!"D {dc} # {dr}"
   | [["names"], items] =>
     -- item = lower-cased name ":" name, each a comma-separated list of code points
     let codes := fun (t : String) => if t == "" then ([] : List Nat) else (t.splitOn ",").map nat!
